@@ -93,7 +93,8 @@ class Translator:
         if self.enddef_args:
             h = h or self.enddef_args.get("v_align", 0)
             r = r or self.enddef_args.get("r_align", 0)
-        return h, r
+        up4 = lambda x: (x + 3) // 4 * 4        # documented: alignments are rounded up to a multiple of 4
+        return up4(h), up4(r)
 
     def rowlen(self, v):
         name, xt, dimids = self.vars[v]
@@ -113,7 +114,9 @@ class Translator:
         else:
             a.update(start=[0] * len(shape), count=list(shape))
         a["vals"] = list(toks)
-        if self.np > 1:
+        if self.np > 1 and len(shape) > 0:
+            # one rank writes, the others take part with a zero-length request (a scalar cannot be zero-length:
+            # there every rank writes the same value)
             a["pr"] = {str(p): {"count": [0] * len(shape), "vals": []} for p in range(1, self.np)}
         return a
 
